@@ -103,6 +103,11 @@ def shapes(thorough):
         'QvQvRpp': lambda b: Q.Existential(b.var(), Q.Universal(b.var(), R(b))),
         '~QvFp': lambda b: ~Q.Existential(b.var(), F(b)),
         'MFp': lambda b: O.Possibility(F(b)),
+        # binary operators whose operands may be the very same sentence
+        # (hash-consing: equal operands are one object)
+        'A&A': lambda b: b.atom() & b.atom(),
+        'QvFp&QvFp': lambda b: Q.Universal(b.var(), F(b)) & Q.Universal(b.var(), F(b)),
+        '~A%~A': lambda b: O.Biconditional(~b.atom(), ~b.atom()),
     }
     if thorough:
         sh.update({
